@@ -193,6 +193,10 @@ def all_cases(tier):
         if set(c['cols']) & set('fi') and c.get('components') is None and c.get('loader', 'auto') == 'auto' and \
                 (tier == 'thorough' or (c.get('nrow', 3) == 3 and not c.get('derived'))):
             be.append(dict(c, be=True))
+        # ... and float columns stored as float32 (readers that special-case 'float' often mean float64)
+        if 'f' in c['cols'] and c.get('components') is None and \
+                (tier == 'thorough' or (c.get('nrow', 3) == 3 and not c.get('derived'))):
+            be.append(dict(c, f32=True))
     return cases + be + session_cases(tier, pal)
 
 
@@ -216,6 +220,8 @@ def build(c):
             cols.append((names[k], k, np.roll(np.resize(vals, size), -j).reshape(shape)))
     if c.get('be'):
         cols = [(name, k, v.astype(v.dtype.newbyteorder('>')) if v.dtype.kind in 'fi' else v) for name, k, v in cols]
+    if c.get('f32'):
+        cols = [(name, k, v.astype('float32') if v.dtype.kind == 'f' else v) for name, k, v in cols]
     for name, k, v in cols:
         d.add_component(v.copy(), name)
     if c.get('derived'):
